@@ -161,6 +161,8 @@ var tmpRes = []*regexp.Regexp{
 	regexp.MustCompile(`pdfcpu-reservation-[0-9a-f]+`),
 	regexp.MustCompile(`pdfcpu-stdin-[0-9]+`),
 	regexp.MustCompile(`(pdfcpu[a-zA-Z\-_.]*?)[0-9]{6,}`),
+	// hidden transaction files/directories with a random decimal suffix: .one.p7c.stage-3331133704, .input-1-2620386617
+	regexp.MustCompile(`(^|/)(\.[^/]*?-)[0-9]{6,}`),
 }
 
 // Canon makes a path relative to root and normalises random temp-name suffixes.
@@ -186,6 +188,7 @@ func CanonName(p string) string {
 	p = tmpRes[1].ReplaceAllString(p, ".pdfcpu-$1-*")
 	p = tmpRes[3].ReplaceAllString(p, "pdfcpu-stdin-*")
 	p = tmpRes[4].ReplaceAllString(p, "$1*")
+	p = tmpRes[5].ReplaceAllString(p, "$1$2*")
 	return p
 }
 
